@@ -380,7 +380,20 @@ def config_check(sub_a: t.Tuple[str, ...], sub_b: t.Tuple[str, ...]) -> t.List[t
                 getattr(s, REGISTER[k])(cls)
             except ValueError:
                 if A.freeze(s) != before:
-                    out.append((f"refused-registration-changed-session:{k}:{why}", "a refused registration changed the session"))
+                    # structurally different: it counts if the session now decodes anything differently from one
+                    # that never saw the refused registration
+                    ref = L.LDAPServer()
+                    _register(ref, sub_b)
+                    for wire in (REQ_X, REQ_F, REQ_A, REQ_F_OR, REQ_SD):
+                        got = []
+                        for x in (copy.deepcopy(s), copy.deepcopy(ref)):
+                            try:
+                                got.append([repr(m) for m in x.receive(wire)])
+                            except BaseException as e:  # noqa: BLE001
+                                got.append(type(e).__name__)
+                        if got[0] != got[1]:
+                            out.append((f"refused-registration-changed-session:{k}:{why}", f"after a refused registration the session decodes {wire.hex()[:40]} as {str(got[0])[:120]}, a session without it: {str(got[1])[:120]}"))
+                            break
             except BaseException as e:  # noqa: BLE001
                 out.append((f"registration-raises:{type(e).__name__}:{k}:{why}", str(e)))
             else:
